@@ -188,6 +188,7 @@ def main():
                    'cone sections s > 3 (module constant 41 overridden to the bound)', 'floating point evaluation',
                    'positive semi-definiteness is a corollary of the energy form with F >= 0, not a query']
     res = pmap(kprop.job, [(__name__, c) for c in cf])
+    res = kprop.explore_loci(__name__, res, run)      # second pass: the equality loci the executed code branched on
     kprop.handle(run, res, build, 'entries differ from the energy Hessian')
     return run.finish()
 
